@@ -3,6 +3,9 @@ package internal
 import "math/rand"
 
 func subset(set []string, sub int) []string {
+	// shuffle a copy: the given slice may be shared, e.g. the values cached by a
+	// discov subscriber, and resolvers are updated from several goroutines
+	set = append([]string(nil), set...)
 	rand.Shuffle(len(set), func(i, j int) {
 		set[i], set[j] = set[j], set[i]
 	})
